@@ -436,9 +436,13 @@ def value_call_programs():
     out.append([("if", ("cmp", ">", get_usr(), L(1)), [wr("RdV", L(1))], [wr("RdV", get_usr(OVF_F))])])
     out.append([decl("uint32_t", "w", get_usr()), wr("RdV", ("shift", ">>", var("w", "uint32_t"), L(1)))])
     # not included (observed, see NOTES-value-calls.md): `RdV = ({ set_usr_field(b, F, s); get_usr_field(b, F); })` — the
-    # pending call inside the VALUE of a call statement-expression is pulled in front of the statement (reads the old cell);
-    # `for (…) { set_usr_field(b, F, get_usr_field(b, F) + 1); }` — real order of the loop's dependencies (step first)
-    # differs from the `vcall` model's (pre-existing tie gap of void call statements with hybrid arguments in loop bodies)
+    # pending call inside the VALUE of a call statement-expression is pulled in front of the statement (reads the old cell)
+    # a void call statement with a pending argument in a loop body / block with a bare value: the dependencies of the bare
+    # values (loop step, `i++;`) come first, then those of the call's arguments (`chk`: bare leaves first)
+    out.append([("for", "i", L(3), [set_usr_stmt(("bin", "+", get_usr(), L(1)), LPCFG_F)]), wr("RdV", get_usr())])
+    out.append([("for", "i", L(3), [set_usr_stmt(call("clz32", s), LPCFG_F), wr("RdV", call("clz32", t))])])
+    out.append([("assign", ("var", "i", (False, 32)), "=", s), ("if", reg("PuV"), [set_usr_stmt(call("clz32", s), LPCFG_F), ("exprstmt", ("post", "i", "++"))], None),
+                wr("RdV", ("var", "i", (False, 32)))])
     out.append([wr("RdV", ("tern", reg("PuV"), get_usr(), s))])                                  # ?: arm (the call itself has no effect on the state)
     out.append([wr("RdV", call("clz32", get_usr()))])                                            # argument of another call
     out.append([("exprstmt", get_usr()), wr("RdV", s)])                                          # value unused
